@@ -9,15 +9,16 @@ Every function returns `Except Err α`:
   `assert` (`assert`), arithmetic on `None` (`typeError`); `notImplemented`
   (`raise NotImplementedError`) is no longer produced: the code raises `AdmError` for unsupported pack
   types since commit 76cae51;
-* `Err.noOracle` — the allocator oracle has no entry for this call (never with a recorded oracle).
 
-The functions are transliterations in the order the Python runs them.  The pack allocator
-(`pack_allocation.allocate_packs`, property C07) is abstract: an oracle gives, for the n-th call,
-the first (at most two) solutions as lists of indices into `_PackAllocator.packs`.
+
+The functions are transliterations in the order the Python runs them.  The pack allocator is C07's model
+`Earverif.PackAlloc` (`pack_allocation.allocate_packs` and the decision of `select_pack_mapping`), called
+on the allocation problem built here from the document (`allocProblem`).
 Recursion over the object / pack graphs uses fuel = number of elements (+1); after the loop
 validations passed no path is longer than that.  Core Lean only.
 -/
 import Earverif.Model.AdmV
+import Earverif.Model.PackAlloc
 namespace Earverif.Validate
 open Earverif.AdmV
 
@@ -35,7 +36,7 @@ inductive AdmKind
 inductive IntKind | attrNone | unpack | index | assert | typeError | notImplemented
   deriving DecidableEq, Repr
 
-inductive Err | adm (k : AdmKind) | internal (k : IntKind) | noOracle
+inductive Err | adm (k : AdmKind) | internal (k : IntKind)
   deriving DecidableEq, Repr
 
 abbrev R := Except Err
@@ -715,14 +716,27 @@ structure Pattern where
   root : Nat
   isMatrix : Bool
   channels : List Nat
+  pfs : List (List Nat)       -- `pack_formats` of each `AllocationChannel`, parallel to `channels`
   deriving Repr, Inhabited
+
+/-- the `pack_formats` of the channels of `wrap_non_matrix_pack` / the pre-applied matrix pack: the path from the
+root pack to the pack that lists the channel -/
+def packPathsOf (d : Doc) (p : Nat) : List (List Nat) := (packPathsChannels d p).map (·.1)
+
+/-- `pack_formats=[x]` for every channel -/
+def constPfs (chans : List Nat) (x : Nat) : List (List Nat) := chans.map (fun _ => [x])
+
+/-- the `AllocationChannel`s of an allocation pack -/
+def Pattern.allocChannels (pat : Pattern) : List PackAlloc.Channel :=
+  List.zipWith (fun c p => ⟨c, p⟩) pat.channels pat.pfs
 
 /-- `wrap_matrix_pack`, first `if`: direct/decode use and pre-applied use -/
 def wrapFirst (d : Doc) (pi : Nat) (t : MType) : R (List Pattern) :=
   if t == .direct || t == .decode then
     match inputPackOf (d.pack pi) with
     | .error e => .error e
-    | .ok ip => .ok [⟨pi, true, packChannels d ip⟩, ⟨pi, true, packChannels d pi⟩]
+    | .ok ip => .ok [⟨pi, true, packChannels d ip, constPfs (packChannels d ip) pi⟩,
+                     ⟨pi, true, packChannels d pi, packPathsOf d pi⟩]
   else .ok []
 
 /-- `wrap_matrix_pack`, second `if`: encode-then-decode use (`[encode_pack] = ...`, `encode_pack.inputPackFormat`) -/
@@ -732,7 +746,7 @@ def wrapSecond (d : Doc) (pi : Nat) (t : MType) : R (List Pattern) :=
     | .error e => .error e
     | .ok e => match (d.pack e).input with
       | none => .error (.internal .attrNone)           -- `pack_format_paths_from(None)`
-      | some ii => .ok [⟨pi, true, packChannels d ii⟩]
+      | some ii => .ok [⟨pi, true, packChannels d ii, constPfs (packChannels d ii) e⟩]
   else .ok []
 
 /-- `wrap_matrix_pack` -/
@@ -747,7 +761,7 @@ def wrapMatrixPack (d : Doc) (pi : Nat) : R (List Pattern) :=
 
 /-- body of the loop of `get_wrapped_packs` (`wrap_non_matrix_pack` / `wrap_matrix_pack`) -/
 def patternsOf (d : Doc) (pi : Nat) : R (List Pattern) :=
-  if (d.pack pi).type != .matrix then .ok [⟨pi, false, packChannels d pi⟩] else wrapMatrixPack d pi
+  if (d.pack pi).type != .matrix then .ok [⟨pi, false, packChannels d pi, packPathsOf d pi⟩] else wrapMatrixPack d pi
 
 /-- `_PackAllocator.__init__`: `self.packs = list(self.get_wrapped_packs(adm))` -/
 def patterns (d : Doc) : R (List Pattern) :=
@@ -788,28 +802,35 @@ def renderingItems (d : Doc) (extra : R Unit) (pat : Pattern) : R Nat :=
       | some o => itemsFor d extra o outs
   else itemsFor d extra pat.root (pat.channels.map some)
 
-/-- allocator oracle: n-th `allocate_packs` call ↦ the first (at most two) solutions, each the list of
-indices into `_PackAllocator.packs` (`patterns d`) -/
-abbrev Oracle := Nat → Option (List (List Nat))
+/-- the `allocate_packs` arguments of `select_pack_mapping`: `self.packs` (identity of an allocation pack = its
+position in `self.packs`), one `AllocationTrackUID` per selected track (identity = position; `channel_format` and
+`pack_format` are never `None` after `validate_selected_audioTrackUID`, the fallbacks are indices no element has),
+the object's pack references (`None` in CHNA-only mode) and the number of silent tracks -/
+def allocProblem (d : Doc) (pats : List Pattern) (packs : Option (List Nat)) (tracks : List Nat)
+    (cfs : List (Option Nat)) (nSilent : Nat) : PackAlloc.Problem :=
+  { packs := pats.zipIdx.map (fun pk => ⟨pk.2, pk.1.root, pk.1.allocChannels⟩)
+    tracks := (List.zip tracks cfs).zipIdx.map (fun tk =>
+      ⟨tk.2, tk.1.2.getD d.channels.length, ((d.atu tk.1.1).pack).getD d.packs.length⟩)
+    packRefs := packs
+    numSilent := nSilent }
 
 /-- `_PackAllocator.select_pack_mapping` followed by `_get_rendering_items` for each yielded state -/
-def processState (d : Doc) (pats : List Pattern) (oracle : Oracle) (i : Nat) (st : State) : R Nat :=
+def processState (d : Doc) (pats : List Pattern) (st : State) : R Nat :=
   let (packs, tracks, nSilent) := selectedOf d st
   match forE tracks (validateSelectedTrack d) with
   | .error e => .error e
   | .ok _ => match mapE tracks (channelForTrack d) with
     | .error e => .error e
-    | .ok _ => match oracle i with
-      | none => .error .noOracle
-      | some [] => raiseError d packs tracks nSilent .conflicting
-      | some [sol] =>
+    | .ok cfs => match PackAlloc.selectPackMapping (allocProblem d pats packs tracks cfs nSilent) with
+      | .conflicting => raiseError d packs tracks nSilent .conflicting
+      | .ambiguous => raiseError d packs tracks nSilent .ambiguous
+      | .accepted sol =>
         match mapE tracks (trackSpec d) with
         | .error e => .error e
-        | .ok _ => sumE sol 0 (fun _ k => renderingItems d (avsSelected d st) (pats.getD k default))
-      | some _ => raiseError d packs tracks nSilent .ambiguous
+        | .ok _ => sumE sol 0 (fun _ a => renderingItems d (avsSelected d st) (pats.getD a.pack.id default))
 
 /-- `select_rendering_items(adm, audio_programme, selected_complementary_objects)`: number of items -/
-def selectItems (d : Doc) (prog : Option Nat) (sel : List Nat) (oracle : Oracle) : R Nat :=
+def selectItems (d : Doc) (prog : Option Nat) (sel : List Nat) : R Nat :=
   match validateStructure d with
   | .error e => .error e
   | .ok _ => match patterns d with
@@ -818,7 +839,7 @@ def selectItems (d : Doc) (prog : Option Nat) (sel : List Nat) (oracle : Oracle)
       | .error e => .error e
       | .ok ignore => match selectStates d prog with
         | .error e => .error e
-        | .ok states => sumE (states.filter (keepState ignore)) 0 (processState d pats oracle)
+        | .ok states => sumE (states.filter (keepState ignore)) 0 (fun _ st => processState d pats st)
 
 /-- unique-path property that `_get_pack_format_path` relies on: under every pack each reachable channel
 is found on exactly one path -/
